@@ -9,26 +9,28 @@ def plan(pid, tier, seed):
     quick = tier == "quick"
     if quick:
         mc = [
+            # pom cases are cheap to replay (10 ms) and only 3 % of the cases of Deps_MC_*: own enumeration with a large sample,
+            # listed first (check de-duplicates emitted cases across cfgs, so the samples of Deps_MC_* are then all gradle cases)
+            {"module": "Deps", "cfg": "Deps_Gen_pom_quick.cfg", "emit": True, "sample": 250, "properties": PROPS_ALL, "timeout": 600},
             {"module": "Deps", "cfg": "Deps_MC_quick.cfg", "emit": True, "sample": 170, "properties": PROPS_ALL, "timeout": 600},
             {"module": "Deps", "cfg": "Deps_Gen_unused_quick.cfg", "emit": True, "sample": 120, "properties": PROPS_ALL, "timeout": 600},
-            # pom cases are cheap to replay (10 ms) and rare among the cases of Deps_MC_quick: own enumeration, larger sample
-            {"module": "Deps", "cfg": "Deps_Gen_pom_quick.cfg", "emit": True, "sample": 250, "properties": PROPS_ALL, "timeout": 600},
         ]
     else:
         mc = [
-            {"module": "Deps", "cfg": "Deps_MC_thorough.cfg", "emit": True, "sample": 4000, "properties": PROPS_ALL, "timeout": 3000,
+            # all 2925 pom cases are replayed (no sampling)
+            {"module": "Deps", "cfg": "Deps_Gen_pom_thorough.cfg", "emit": True, "sample": 3000, "properties": PROPS_ALL, "timeout": 3000},
+            {"module": "Deps", "cfg": "Deps_MC_thorough.cfg", "emit": True, "sample": 3500, "properties": PROPS_ALL, "timeout": 3000,
              "coverage": True},
             {"module": "Deps", "cfg": "Deps_Gen_unused_thorough.cfg", "emit": True, "sample": 1500, "properties": PROPS_ALL, "timeout": 3000},
             {"module": "Deps", "cfg": "Deps_Gen_unused2_thorough.cfg", "emit": True, "sample": 1500, "properties": PROPS_ALL, "timeout": 3000},
-            {"module": "Deps", "cfg": "Deps_Gen_pom_thorough.cfg", "emit": True, "sample": 3000, "properties": PROPS_ALL, "timeout": 3000},
         ]
     return {
         "harness": "deps",
         "mc": mc,
         "gen": [],
-        "rand": 120 if quick else 2500,
+        "rand": 120 if quick else 2000,
         "trace": TRACE,
-        "run_timeout": 3000,
+        "run_timeout": 6000,
     }
 
 
